@@ -3,10 +3,10 @@
 Sessions build(v); parse(bytes) are recorded from the real library; TLC evaluates C01Sym (spec/Props.tla) on the
 recorded results: whenever the program is sequential and well-formed and the model itself is symmetric on (program,
 value) -- which is how membership of v in the value domain is decided --, the recorded parse must succeed and return
-the recorded build result (the value with the derived members filled in).  Design level: MC_C01 shows the model is
-symmetric on the explicit domain of the property statement.
+the value with the derived members filled in as the specification fills them.  Design level: MC_CAM (theorems Rebuild / Normal)
+shows the model is symmetric on an explicit syntactic fragment, and its sessions are replayed into the code.
 """
-from .. import ast as A, gen, values as V, campaign, tlc
+from .. import ast as A, gen, values as V, campaign, tlc, speccode
 from . import common
 
 LEVEL = "model_checking"
@@ -39,6 +39,12 @@ def run(ctx):
             camp.sh.maybe_flush()
             if i < 3:
                 ctx.sample({"program": prog})
+        # spec -> code: sessions TLC explores on the model's universe; the value built is the one the specification parsed
+        uprogs, ukw, sessions, _ = speccode.explore(ctx, focus="all", part=speccode.part_of(ctx, 8 if quick else 16))
+        def on(camp, prog, con, s, idx):
+            if idx["build"] and idx["reparse"]:
+                camp.sh.session(CLAUSE, [idx["build"], idx["reparse"]])
+        speccode.drive(camp, uprogs, ukw, sessions, on)
         vs = camp.validate()
         counts = campaign.judge(ctx, camp, vs, conformance=None, clauses=(CLAUSE,))
         nt = set()
@@ -50,7 +56,6 @@ def run(ctx):
         ctx.cov["distinct_nontrivial"] = len(nt)
         ctx.cov["sessions"] = {"premise_held": counts.get("ok", 0) and sum(1 for v in vs if v.get("why") == CLAUSE and v["st"] == "ok"),
                                "premise_failed": sum(1 for v in vs if v.get("why") == CLAUSE and v["st"] == "na")}
-    common.design_level(ctx, "MC_C01", required=False)
 
 def common_key(prog):
     from ..pipeline import pkey
